@@ -12,6 +12,8 @@
 (*   "q" any other letter   "sp" space                                     *)
 (*   "cc" a control character (BEL, ESC, VT, DEL ...)                      *)
 (*   "ap" a non-printable code point outside the BMP (e.g. a tag character)*)
+(*   "cm" a separator character (comma, semicolon): special to no stage,   *)
+(*        but a list of values must not be joined and split on it          *)
 (*   "P1", "P2" the placeholders {{ex.p1}}, {{ex.p2}} (messages only)      *)
 (* Outcomes are either a string or "COMPILE-ERROR".                        *)
 (*                                                                         *)
